@@ -253,12 +253,12 @@ VOLUME = {  # family -> generator, per tier: instances, generator parameters, ro
     "vol-general-integer": {
         "gen": gen_vol, "what": "all row shapes x all cost shapes, entries up to 3 / 5 / 9 (drawn per instance), ~72 % pure "
                                 "integer, ~24 % one continuous variable, ~4 % two (then n = 4..5)",
-        "quick": (450, {"nmax": 7}, False), "thorough": (25000, {"nmax": 9}, False)},
+        "quick": (400, {"nmax": 7}, False), "thorough": (25000, {"nmax": 9}, False)},
     "vol-integral-lp-value": {
         "gen": gen_vol, "what": "pure-integer programs whose costs are integer combinations of the rows (cost shapes "
                                 "dual-integral and row-sum), 2..3 user rows: the LP value of the root and of many tree nodes is "
                                 "exactly an integer at a fractional vertex, the optimum often equals the LP bound",
-        "quick": (3000, dict(INTEGRAL_KW, nmin=6, nmax=8, amax=(3,)), True),
+        "quick": (2800, dict(INTEGRAL_KW, nmin=6, nmax=8, amax=(3,)), True),
         "thorough": (40000, dict(INTEGRAL_KW, nmin=6, nmax=9, amax=(3, 3, 5)), False)},
     "mixbin-continuous-cost": {
         "gen": gen_mixbin, "what": "0/1 variables with explicit x_j <= 1 rows + 1..2 continuous variables (bound rows 1..5) "
@@ -275,14 +275,18 @@ def build_units(ctx):
     for fam, spec in VOLUME.items():
         count, kw, rotate = spec["quick" if ctx.quick else "thorough"]
         opts = MIXBIN_OPTS if fam.startswith("mixbin") else VOL_OPTS
-        k = 0
+        k = r = 0
         for _ in range(count):
             inst = spec["gen"](rng, **kw)
             key = digest([inst["c"], inst["A"], inst["b"], inst["integers"], inst["minimize"]])
             if key in seen:
                 continue
             seen.add(key)
-            sel = [k % len(opts)] if rotate and k % 8 else list(range(len(opts)))
+            if rotate and k % 8:
+                sel = [r % len(opts)]
+                r += 1
+            else:
+                sel = list(range(len(opts)))
             units.append((json.dumps(inst, separators=(",", ":")), fam, sel))
             k += 1
         ctx.scope(fam, instances=k, what=spec["what"], generator=" ".join((spec["gen"].__doc__ or "").split()),
